@@ -11,6 +11,12 @@ read again   : a summary is read more than once: after the first projection the 
                nb_missing_labels(), table and plot representers at several verbosities, for a sample the rst
                formatting) and the summary is projected AGAIN; a second projection that differs from the first is
                judged by the same TLC output / the same StatsTrace clauses (keys get the suffix /after-reading).
+names        : every case (both directions, also through the pipeline) is run a second time with its label names, label
+               values, test names and task names replaced -- injectively, in rotation -- by strings the implementation
+               and its helpers use as keys / attribute names of their own ('index', 'results', 'labels', 'name',
+               'status', 'result', 'data', 'OK', 'KO', 'total', '_result', '_test_name', the empty string); judged by
+               the same TLC output with the names mapped / by StatsTrace on the real names (keys get /colliding-names
+               when the same case on ordinary names does not show the same class).
 code -> spec : seeded random bigger inputs (<= 8 tasks, <= 4 results each, 3 label names x 3 values, selections
                of 1-3 labels) are evaluated by the real classes, the projection recorded as JSON and the batch
                validated by TLC against StatsTrace.tla.
@@ -540,7 +546,9 @@ def run_c18(ctx):
              'both orders plus a label nobody carries) is evaluated by the real TestStatsTasks / TestStatsTests / '
              'TestStatsTestsByLabels on stub results; one state in seven (content hash) with distinct task names also runs through task_stats / '
              'test_stats / test_stats_by_labels + Use + EvalTestTask on an Env.  code->spec: seeded random bigger inputs validated '
-             'by TLC against StatsTrace.tla.  read again: every summary (both directions, also through the pipeline) is then read through its public '
+             'by TLC against StatsTrace.tla.  names: every dumped state and one random input in three is evaluated a second time with label names / '
+             'label values / test names / task names replaced injectively (26 renamings in rotation) by the 13 strings the implementation uses '
+             'as keys or attribute names itself (index, results, labels, name, status, result, data, OK, KO, total, _result, _test_name, empty string).  read again: every summary (both directions, also through the pipeline) is then read through its public '
              'read paths (bool, classification_counts / oracles / nb_missing_labels, table and plot representers at 2 of the 6 verbosities chosen '
              'by the content hash, rst formatting for one in 32) and projected a second time; a second projection that differs is judged by the '
              'same TLC output / StatsTrace clauses.  distinct_nontrivial counts inputs whose summary has two non-empty classes, a class of '
